@@ -14,6 +14,7 @@ CONSTANTS
   CraftToks = {}
   MaxPresent = 2
   Calls = {"exchange", "disconnect", "leave", "setmax"}
+  PumpPay = FALSE
   HealRounds = 0
   HealDt = 250
   Bound = 0
